@@ -60,6 +60,7 @@ def run(idx: ProgramIndex, rep: Report, tier: str):
     dispatch(idx, rep, fs)
     axis_addressing(idx, rep, fs)
     saved_outputs_intact(idx, rep)
+    outputs_are_computed(idx, rep, fs)
     rep.assume("callables passed into a Function (sq_dist_func, dist_func) return freshly allocated tensors (Kernel.covar_dist does)")
 
 
@@ -664,3 +665,53 @@ def saved_outputs_intact(idx: ProgramIndex, rep: Report):
         rep.add("C19-7", "%s:%s" % (fi.module.name, fi.qualname), fi.where, not probs,
                 "no in-place write reaches a result that autograd saved" if not probs else "; ".join(sorted(probs)) + ": a backward pass through this value raises (gradients of predictions / objectives through it are lost)", {})
     rep.floor("C19-7", "functions combining output-saving operations with in-place writes", n, 3)
+
+
+# ---- C19-8 ---------------------------------------------------------------------------------------------------------
+CONSTANT_MAKERS = {"torch.zeros", "torch.zeros_like", "torch.ones", "torch.ones_like", "torch.full", "torch.full_like", "torch.empty", "torch.empty_like", "torch.tensor"}
+
+
+def outputs_are_computed(idx: ProgramIndex, rep: Report, fs):
+    """'The gradient delivered to the user equals the derivative of the function actually computed in the forward pass': an output of
+    forward that is a constant (zeros_like(...), a literal) has derivative zero, so a backward that *uses* the incoming gradient of that
+    output delivers the gradient of some other function than the one whose value the user received."""
+    rep.rule("C19-8", "every output of forward whose incoming gradient backward uses is computed from the inputs (not a constant placeholder)")
+    from ..symbolic import inline, walk_paths
+    n = 0
+    for cls in fs:
+        fwd, bwd = cls.methods.get("forward"), cls.methods.get("backward")
+        if fwd is None or bwd is None:
+            continue
+        gparams = bwd.params[1:]  # after ctx
+        used = {x.id for x in ast.walk(bwd.node) if isinstance(x, ast.Name) and isinstance(x.ctx, ast.Load)}
+        probs = set()
+        nouts = 0
+        for path, seq in walk_paths(fwd):
+            if path.outcome != "return" or path.end is None or getattr(path.end, "value", None) is None:
+                continue
+            env = {}
+            for st, e_ in seq:
+                if st is path.end:
+                    env = e_
+            rv = path.end.value
+            outs = list(rv.elts) if isinstance(rv, ast.Tuple) else [rv]
+            nouts = max(nouts, len(outs))
+            for k, o in enumerate(outs):
+                v = inline(o, env)
+                const = (isinstance(v, ast.Call) and (chain(v.func) or "") in CONSTANT_MAKERS) or isinstance(v, ast.Constant)
+                if const and isinstance(o, ast.Name):
+                    # a buffer that is filled in place afterwards (out[mask] = ..., out.masked_scatter_(...)) is computed, not constant
+                    filled = any((isinstance(x, ast.Subscript) and isinstance(x.ctx, ast.Store) and isinstance(x.value, ast.Name) and x.value.id == o.id) or
+                                 (isinstance(x, ast.Call) and isinstance(x.func, ast.Attribute) and x.func.attr.endswith("_") and isinstance(x.func.value, ast.Name) and x.func.value.id == o.id) or
+                                 (isinstance(x, ast.AugAssign) and isinstance(x.target, ast.Name) and x.target.id == o.id)
+                                 for x in ast.walk(fwd.node))
+                    const = not filled
+                if const and k < len(gparams) and gparams[k] in used:
+                    probs.add("output %d of forward is the constant `%s` but backward uses its incoming gradient `%s`: the value handed to the user is not the function whose gradient is delivered" % (k, " ".join(src(v).split())[:50], gparams[k]))
+                elif const and k < len(gparams):
+                    rep.observe("C19-8", "%s:%s[output %d]" % (cls.module.name, cls.qualname, k), fwd.where,
+                                "output %d is the constant `%s`; backward ignores its incoming gradient (consistent: derivative of a constant), but the *value* is a placeholder - callers that report it (a KL of exactly 0) report a placeholder" % (k, " ".join(src(v).split())[:50]))
+        n += 1
+        rep.add("C19-8", "%s:%s" % (cls.module.name, cls.qualname), fwd.where, not probs,
+                "%d output(s), each computed from the inputs or ignored by backward" % nouts if not probs else "; ".join(sorted(probs)), {})
+    rep.floor("C19-8", "autograd Functions", n, 6)
